@@ -148,8 +148,9 @@ import datetime as _dt                                   # noqa: E402
 class Dt:
     """a datetime value in the wrappers: built from now(UTC) / fromisoformat / a given start by + timedelta / replace"""
 
-    def __init__(self, expr):
-        self.expr = expr                                  # structural: ('now', k) | ('iso', text) | ('given',) | ('plus', Dt, td) | ...
+    def __init__(self, expr, aware=None):
+        self.expr = expr                                  # structural: ('now', k) | ('iso', text) | ('given',) | ('plus', Dt, td) | ('utc', Dt) ...
+        self.aware = aware                                # None: nobody asked yet whether it carries a time zone
 
     def __repr__(self):
         return f'<Dt {self.expr}>'
@@ -166,6 +167,16 @@ class Dt:
     def getattr_(self, it, name, node):
         if name == 'year':
             return YearVal()
+        if name == 'tzinfo':
+            if self.aware is None:
+                self.aware = it.run.choose([('naive', True), ('aware', True)], f'{self.expr[0]}.tzinfo') == 'aware'
+            return Opaque('tzinfo', 'tz') if self.aware else None
+        if name == 'astimezone':
+            def astimezone(it_, tz):
+                if tz is not _dt.UTC:
+                    raise Unsupported('astimezone to another zone than UTC')
+                return Dt(('utc', self), True)             # the same instant, expressed in UTC
+            return _M(astimezone)
         if name == 'replace':
             def replace(it_, **kw):
                 # ValueError when the day does not exist in the target year (29 February)
@@ -336,9 +347,18 @@ class derive_cert(_Wrapper):
         else:
             out['issuer_component_passed_on'] = k['issuer'] is issuer_id
         e = k['end']
-        out['valid_from_start_time'] = k['start'] is start_time
-        out['valid_for_expire_sec_seconds'] = isinstance(e, Dt) and e.expr[0] == 'plus' and e.expr[1] is start_time and \
+
+        def instant_of_start(d):
+            # the given start time itself, or the same instant expressed in UTC
+            return d is start_time or (isinstance(d, Dt) and d.expr[0] == 'utc' and d.expr[1] is start_time)
+        out['valid_from_start_time'] = instant_of_start(k['start'])
+        out['valid_for_expire_sec_seconds'] = isinstance(e, Dt) and e.expr[0] == 'plus' and instant_of_start(e.expr[1]) and \
             list(e.expr[2].kw) == ['seconds'] and e.expr[2].kw['seconds'] is expire_sec
+        # "+ timedelta" on a zone-aware datetime moves the WALL CLOCK of that zone; the requested end is the start INSTANT plus the
+        # seconds, so the sum is formed on a naive value or on the start expressed in UTC (the two differ across a DST change)
+        base = e.expr[1] if isinstance(e, Dt) and e.expr[0] == 'plus' else None
+        out['lifetime_added_to_the_instant_not_to_a_zone_wall_clock'] = (base is start_time and start_time.aware is False) or \
+            (isinstance(base, Dt) and base.expr[0] == 'utc' and base.expr[1] is start_time)
         return out
 
 
